@@ -164,10 +164,39 @@ type orderMonitor struct {
 	undisciplined map[uuid.UUID]bool
 	wasCompleted  map[uuid.UUID]bool
 	revived       map[uuid.UUID]bool
+	soughtSince   map[uuid.UUID]bool // delivery was completed, and a seek on its subscription came later
 }
 
 func newOrderMonitor() *orderMonitor {
-	return &orderMonitor{map[uuid.UUID]bool{}, map[uuid.UUID]bool{}, map[uuid.UUID]bool{}}
+	return &orderMonitor{map[uuid.UUID]bool{}, map[uuid.UUID]bool{}, map[uuid.UUID]bool{}, map[uuid.UUID]bool{}}
+}
+
+// pullMonitors: three more statements of the properties evaluated directly on an observed pull,
+// from the observed state before it (whatever earlier step produced that state):
+//
+//	handed-out-before-due      (C04) the delivery's stored next-attempt time lies after the call
+//	handed-out-after-retention (C14) its stored retention deadline lies before the call
+//	attempts-exceeded          (C06) its attempt number exceeds the dead-letter limit of the subscription
+//	acked-redelivered          (C03) it was acknowledged earlier and no seek on its subscription came since
+func (m *orderMonitor) pullMonitors(pre *Dump, o *Obs, s *SubRow) {
+	for _, p := range o.Resp.Pulled {
+		d := pre.del(p.Ack)
+		if d == nil {
+			continue
+		}
+		if d.AttemptAt > o.Hi {
+			o.Monitor = append(o.Monitor, fmt.Sprintf("handed-out-before-due: delivery %s (attempt %d) was handed out %v before its stored next-attempt time", d.ID, p.Attempt, time.Duration(d.AttemptAt-o.Hi).Round(time.Millisecond)))
+		}
+		if d.Expires < o.Lo {
+			o.Monitor = append(o.Monitor, fmt.Sprintf("handed-out-after-retention: delivery %s was handed out %v after its stored retention deadline", d.ID, time.Duration(o.Lo-d.Expires).Round(time.Millisecond)))
+		}
+		if s.MaxAttempts != nil && s.DLTopic != nil && int64(p.Attempt) > *s.MaxAttempts {
+			o.Monitor = append(o.Monitor, fmt.Sprintf("attempts-exceeded: delivery %s was handed out as attempt %d, the dead-letter policy allows %d", d.ID, p.Attempt, *s.MaxAttempts))
+		}
+		if m.wasCompleted[d.ID] && !m.soughtSince[d.ID] {
+			o.Monitor = append(o.Monitor, fmt.Sprintf("acked-redelivered: delivery %s was acknowledged earlier, no seek on its subscription came since, and it was handed out again (attempt %d)", d.ID, p.Attempt))
+		}
+	}
 }
 
 func (m *orderMonitor) step(pre *Dump, o *Obs) {
@@ -181,6 +210,14 @@ func (m *orderMonitor) step(pre *Dump, o *Obs) {
 	}
 	op := o.Op
 	switch op.Kind {
+	case "SeekTime", "SeekSnap":
+		if s := pre.subByName(op.Name); s != nil {
+			for _, d := range pre.Dels {
+				if d.Sub == s.ID && m.wasCompleted[d.ID] {
+					m.soughtSince[d.ID] = true
+				}
+			}
+		}
 	case "Ack", "StreamAckNack":
 		for _, id := range op.AckIDs {
 			if u, err := uuid.Parse(id); err == nil {
@@ -202,7 +239,11 @@ func (m *orderMonitor) step(pre *Dump, o *Obs) {
 			return
 		}
 		s := pre.subByName(op.Name)
-		if s == nil || !s.Ordered || m.undisciplined[s.ID] {
+		if s == nil {
+			return
+		}
+		m.pullMonitors(pre, o, s)
+		if !s.Ordered || m.undisciplined[s.ID] {
 			return
 		}
 		key := func(d *DelRow) string {
